@@ -346,6 +346,57 @@ func depth(out p.Output) string {
 	return fmt.Sprintf("%d%d:%d:%d:%d:%d:%d", gc, gw, vl, vr, at, sv, up)
 }
 
+// parentReport checks the reporting half of the property on the parentRefs of the real graph: every
+// parentRef of an attachable route either attached or carries a failed condition (which
+// prepareRouteStatus writes into the route's status).
+//
+//	pu=<n>              parentRefs of attachable routes with neither Attached nor a FailedCondition
+//	nl=<reason,…>       for routes whose Namespace object is NOT in the store: what their parentRefs report
+//	                    ("Attached" or the reason of the failed condition)
+func (c *Ctl) parentReport(out p.Output) string {
+	g := out.Graph
+	if g == nil || g.Gateway == nil {
+		return "pu=0 nl=-"
+	}
+	cs := c.Proc.VerifC05ClusterState()
+	pu := 0
+	reasons := map[string]bool{}
+	visit := func(ns string, attachable bool, refs []graph.ParentRef) {
+		if !attachable {
+			return
+		}
+		_, known := cs.Namespaces[types.NamespacedName{Name: ns}]
+		for _, pr := range refs {
+			switch {
+			case pr.Attachment == nil:
+				pu++
+			case pr.Attachment.Attached:
+				if !known {
+					reasons["Attached"] = true
+				}
+			case pr.Attachment.FailedCondition.Type == "":
+				pu++
+			default:
+				if !known {
+					reasons[pr.Attachment.FailedCondition.Reason] = true
+				}
+			}
+		}
+	}
+	for k, r := range g.Routes {
+		visit(k.NamespacedName.Namespace, r.Attachable, r.ParentRefs)
+	}
+	for k, r := range g.L4Routes {
+		visit(k.NamespacedName.Namespace, r.Attachable, r.ParentRefs)
+	}
+	var rs []string
+	for k := range reasons {
+		rs = append(rs, k)
+	}
+	sort.Strings(rs)
+	return fmt.Sprintf("pu=%d nl=%s", pu, joinOrDash(rs, ","))
+}
+
 // features lists which parts of the dataplane configuration the case produced (generator-quality
 // statistic for the evidence: which generator code paths of BuildConfiguration / Generate were exercised).
 func features(out p.Output) string {
